@@ -19,6 +19,11 @@
 #include "complex_api.h"
 #endif
 
+/* static Value& BuiltinExpression::handback(Context&, Value&) (expression_builtin.cpp; proved on its real body: job builtin_handback):
+ * an owned argument is cloned into a temporary, a temporary is handed back itself */
+struct Value *_ZN4bloc17BuiltinExpression8handbackERNS_7ContextERNS_5ValueE(struct Context *ctx, struct Value *val)
+{ if (V_LVALUE(val)) { struct Value c = _ZNK4bloc5Value5cloneEv(val); return _ZN4bloc7Context8allocateEONS_5ValueE(ctx, &c); } return val; }
+
 struct Value *BUILTIN_FN(struct BUILTIN_CLASS *this, struct Context *ctx)
 __CPROVER_requires(IS_FRESH(this, sizeof(*this)) && IS_FRESH(ctx, sizeof(*ctx)))
 __CPROVER_requires(INPUT_STATE(g_nargs))
@@ -42,6 +47,11 @@ ENS_TYPE(BUILTIN_TYPE)
 #ifdef BUILTIN_TYPE_FOLLOWS_COMPLEX
 /* C02: type() is complex for a complex argument and decimal otherwise (blocc/builtin/builtin_<name>.cpp); value() agrees */
 PROP(C02) __CPROVER_ensures((OK && g_eval_n >= 1) ==> ((V_IS(A1, IMAGINARY) ? V_IS(RET, IMAGINARY) : V_IS(RET, NUMERIC)) && VALID_TAG(RET)))
+#endif
+#ifdef BUILTIN_RESULT_IS_CONTAINER
+/* C05: a string / bytes result can be the receiver of an in-place method (f(s).concat(x)); it must therefore never BE a variable, a constant or a
+ * container element -- also not a null one, which concat would fill in: the result is a temporary */
+PROP(C05) __CPROVER_ensures(OK ==> !V_LVALUE(RET))
 #endif
 #ifdef BUILTIN_TYPE_SAME_AS_ARG1
 /* C02: type() is the type of the first argument (abs -- decimal for a complex --, sign, clamp): with a typed scalar first argument the
